@@ -19,7 +19,7 @@ def rawN (failAt : Option Nat) (fuel : Nat) (bs : Bytes) : Nat := consumedExact 
 
 theorem raw_post (failAt : Option Nat) (fuel : Nat) (bs : Bytes) (hb : IsBytes bs) :
     Post bs (runExactR (decode failAt fuel {}) bs) :=
-  decode_post failAt fuel {} bs (by simp [flat]) (by rfl) hb
+  decode_post failAt fuel {} bs (by simp [flat]) (by rfl) (by rfl) hb
 
 /-- CONCATENATION. Whatever the stream (valid or not), whatever the callback does: the segments handed to the
 callback, concatenated, are a prefix of the stream — exactly its first bytes, in order, nothing skipped or repeated;
@@ -29,7 +29,7 @@ theorem C16_concat (failAt : Option Nat) (fuel : Nat) (bs : Bytes) (hb : IsBytes
     flat (rawOut failAt fuel bs).segs = bs.take (flat (rawOut failAt fuel bs).segs).length ∧
     (flat (rawOut failAt fuel bs).segs).length ≤ rawN failAt fuel bs ∧ rawN failAt fuel bs ≤ bs.length ∧
     ((rawOut failAt fuel bs).status = none → flat (rawOut failAt fuel bs).segs = bs.take (rawN failAt fuel bs)) := by
-  obtain ⟨⟨mid, hcat, hmid⟩, _⟩ := raw_post failAt fuel bs hb
+  obtain ⟨⟨mid, hcat, hmid⟩, _, _, _⟩ := raw_post failAt fuel bs hb
   have hn := consumed_eq (decode failAt fuel {}) bs
   rw [runExactR_fst] at hcat hmid
   unfold rawOut rawN
@@ -53,8 +53,44 @@ live definition of the local message type its header addresses (compressed-times
 such a definition, and definitions do not survive a sequence; a CRC 2 bytes. For every stream and every callback. -/
 theorem C16_lengths (failAt : Option Nat) (fuel : Nat) (bs : Bytes) (hb : IsBytes bs) :
     lengthsOK (rawOut failAt fuel bs).segs = true := by
-  have := (raw_post failAt fuel bs hb).2
+  have := (raw_post failAt fuel bs hb).2.1
   rwa [runExactR_fst] at this
+
+/-- POSITIONS. Every segment SITS where the protocol prescribes (`layoutOK`, FitModel/Raw.lean — `C16_lengths` alone
+would accept a CRC segment reported in the middle of the records): a file header only between sequences; after a header
+announcing `dataSize` bytes (as the independent `FitFormat.parseHeader` reads it) definition and data records only
+while the records reported so far fall short of `dataSize` (the last one may overrun it, as the decoder lets it); the
+2-byte CRC segment exactly when they have reached it, closing the sequence; and a run without error ends between two
+sequences (`layoutClosed`). For every stream and every callback. The proof also shows that the inner loop's fuel
+(`dataSize` iterations) is never what ends it: every record has at least one byte. -/
+theorem C16_layout (failAt : Option Nat) (fuel : Nat) (bs : Bytes) (hb : IsBytes bs) :
+    layoutOK (rawOut failAt fuel bs).segs = true ∧
+    ((rawOut failAt fuel bs).status = none → layoutClosed (rawOut failAt fuel bs).segs = true) := by
+  have := (raw_post failAt fuel bs hb).2.2
+  rwa [runExactR_fst] at this
+
+/-- non-vacuity of `layoutOK`: it rejects a CRC segment before the records have reached the data size, a record after
+they have, and a second header inside a sequence — series on which `lengthsOK` holds -/
+example :
+    let hdr : Seg := ⟨rawFlagFileHeader, [14, 32, 0, 0, 9, 0, 0, 0, 46, 70, 73, 84, 0, 0]⟩
+    let df : Seg := ⟨rawFlagMesgDef, [64, 0, 0, 0, 0, 1, 0, 1, 2]⟩
+    let crc : Seg := ⟨rawFlagCRC, [7, 9]⟩
+    layoutOK [hdr, df, crc] = true ∧ layoutClosed [hdr, df, crc] = true ∧
+    lengthsOK [hdr, crc, df] = true ∧ layoutOK [hdr, crc, df] = false ∧
+    lengthsOK [hdr, df, df, crc] = true ∧ layoutOK [hdr, df, df, crc] = false ∧
+    lengthsOK [hdr, hdr, df, crc] = true ∧ layoutOK [hdr, hdr, df, crc] = false ∧ layoutClosed [hdr, df] = false := by
+  decide +kernel
+
+/-- THE BYTE COUNT THE DRIVER PRINTS. The `raw` operation of the correspondence family runs the model over the reader's
+schedule and counts the bytes of every `io.ReadFull` (`runFullN … 0`); the theorems above speak of `rawOut` / `rawN`
+(the exact-n reader, `consumedExact`). Over every schedule without reader failures — `bytes.NewReader`, any clean
+fragmentation — they are the same outcome and the same count. -/
+theorem C16_count_is_consumed (failAt : Option Nat) (fuel : Nat) (s : Sched) (hs : Clean s) :
+    runFullN (decode failAt fuel {}) s 0 = (rawOut failAt fuel (bytesOf s), rawN failAt fuel (bytesOf s)) := by
+  rw [runFullN_eq_exact _ s 0 hs]; simp [rawOut, rawN]
+
+example : runFullN (decode none 3 {}) [⟨[14, 32, 0, 0, 9], none⟩, ⟨[0, 0, 0, 46, 70, 73, 84, 0, 0, 64, 0, 0], none⟩, ⟨[0, 0, 1, 0, 1, 2, 7], none⟩, ⟨[9], some .eof⟩] 0
+    = (rawOut none 3 [14, 32, 0, 0, 9, 0, 0, 0, 46, 70, 73, 84, 0, 0, 64, 0, 0, 0, 0, 1, 0, 1, 2, 7, 9], 25) := by decide +kernel
 
 /-- non-vacuity: a one-record file is segmented into header, definition, CRC; `lengthsOK` rejects a wrong cut -/
 example : (rawOut none 2 [14, 32, 0, 0, 9, 0, 0, 0, 46, 70, 73, 84, 0, 0,  64, 0, 0, 0, 0, 1, 0, 1, 2,  7, 9]).segs.map (·.bytes.length) = [14, 9, 2] ∧
@@ -104,6 +140,22 @@ example :
                        12, 32, 0, 0, 9, 0, 0, 0, 46, 70, 73, 84,  0x40, 0, 1, 0, 0, 1, 0, 1, 2,  0, 0]
     (runExact (DecProg.decodeLoop false 5 true []) bs).status = none ∧
     (runExact (DecProg.decodeLoop false 5 true []) bs).clean = true ∧ (rawOut none 5 bs).seqs = 2 := by
+  decide +kernel
+
+/-- non-vacuity WITH DEVELOPER FIELDS: a definition whose header has the developer-data bit (0x60: 1 field of 1 byte,
+1 developer field of 2 bytes — 13 bytes), a data record of that type (1 + 1 + 2 bytes), then a second local type
+defined without developer fields and used by a compressed-timestamp record. The full decoder model accepts (checksum
+ignored), the raw decoder reports header, definition (13 bytes), data (4), definition (9), data (2), CRC -/
+example :
+    let bs : Bytes := [14, 32, 0, 0, 28, 0, 0, 0, 46, 70, 73, 84, 0, 0,
+                       0x60, 0, 0, 20, 0, 1, 3, 1, 2, 1, 0, 2, 0,   0x00, 7, 0xAA, 0xBB,
+                       0x41, 0, 0, 21, 0, 1, 4, 1, 2,   0xA3, 5,   0, 0]
+    (runExact (DecProg.decodeLoop false 3 true []) bs).status = none ∧
+    (runExact (DecProg.decodeLoop false 3 true []) bs).clean = true ∧
+    (rawOut none 3 bs).status = none ∧ (rawOut none 3 bs).seqs = 1 ∧
+    (rawOut none 3 bs).segs.map (fun s => (s.flag, s.bytes.length)) =
+      [(rawFlagFileHeader, 14), (rawFlagMesgDef, 13), (rawFlagMesgData, 4), (rawFlagMesgDef, 9), (rawFlagMesgData, 2), (rawFlagCRC, 2)] ∧
+    lengthsOK (rawOut none 3 bs).segs = true ∧ layoutClosed (rawOut none 3 bs).segs = true := by
   decide +kernel
 
 end Fit.C16
